@@ -153,6 +153,17 @@ func H_RendererReset() {
 	r := image.Rect(0, 0, 24, 24)
 	a.SetRasterizer(&ra, r)
 	b.SetRasterizer(&rb, r)
+	if vp.Choice("history", 2) == 1 {
+		// a real earlier use of the Renderer (state a change may keep outside the fields the
+		// arbitrary dirty state below knows about): a level-of-detail window, register
+		// traffic, a gradient paint, a path abandoned in the middle
+		a.Reset(ivg.DefaultViewBox, ivg.DefaultPalette)
+		a.SetLOD(vp.F32("hl0"), vp.F32("hl1"))
+		a.SetNReg(0, true, vp.F32("hn"))
+		a.SetCReg(0, false, ivg.RGBAColor(ivg.EncodeGradient(10, 10, 0, 1, 0)))
+		a.StartPath(0, 1, 1)
+		a.AbsLineTo(2, 2)
+	}
 	var s render.VPState
 	s.CSel, s.NSel, s.LOD0, s.LOD1 = vp.U8("csel"), vp.U8("nsel"), vp.F32("lod0"), vp.F32("lod1")
 	s.CReg, s.Palette = symColors("c"), symColors("p")
